@@ -13,7 +13,7 @@
     snapshot), proved for every policy and every interleaving. *)
 From Coq Require Import List Bool Arith.
 From TG.Model Require Import Sched ServerProto.
-From TG.Proofs Require Import SchedProofs ServerProofs.
+From TG.Proofs Require Import SchedProofs SchedWaitFree ServerProofs.
 Import ListNotations.
 
 (** In every reachable state of every execution, for any two publications the client has received, the earlier
@@ -58,6 +58,16 @@ Check C11_stream_is_sequential : forall (D : Type) (pol : policy) (msgs : list (
   (exists rest, publications init_server (history msgs) = out s ++ rest) /\
   (final s -> out s = publications init_server (history msgs)).
 Print Assumptions C11_stream_is_sequential.
+
+(** The read-modify-write of [published_files] (under its mutex) is executed by one diagnostics task at a time, in
+    spawn order: in every reachable state at most one task still has business with the mutex ([Pind]: holds it or has
+    its critical section ahead).  This is what justifies threading [published] sequentially through [items_of]. *)
+Theorem C11_published_files_sequential : forall (P : Type) (pol : policy) (items : list (item P)) (s : st P),
+  reach pol (init (script_of items)) s -> length (filter (@Pind P) (ws s)) <= 1.
+Proof. exact @one_mutex_user. Qed.
+Check C11_published_files_sequential : forall (P : Type) (pol : policy) (items : list (item P)) (s : st P),
+  reach pol (init (script_of items)) s -> length (filter (@Pind P) (ws s)) <= 1.
+Print Assumptions C11_published_files_sequential.
 
 (** Non-vacuity: a history in which a file with a problem leaves the workspace; the final state is reachable;
     its stream clears the file. *)
